@@ -50,6 +50,7 @@ func (vc *VC) execAppend(x *ssa.Call, pc string, st *State) {
 	n := sx("s_len", e)
 	newLen := vc.define("applen", "Int", sx("+", sx("s_len", s), n))
 	inPlace := vc.define("inplace", "Bool", sx("<=", newLen, sx("s_cap", s)))
+	vc.splitLits = append(vc.splitLits, inPlace)
 	pre := st.clone()
 	id := vc.allocID(st)
 	newCap := vc.freshName("appcap")
@@ -60,8 +61,8 @@ func (vc *VC) execAppend(x *ssa.Call, pc string, st *State) {
 	res := ite(inPlace, sx("mk_slice", sx("s_arr", s), sx("s_off", s), newLen, sx("s_cap", s)), sx("mk_slice", id, "0", newLen, newCap))
 	r := vc.setVal(x, res)
 	_ = r
-	for _, lf := range leavesOf(et) {
-		h := vc.enc.HeapFor(lf.t)
+	for _, lf := range vc.enc.Leaves(et) {
+		h := lf.heap
 		old := vc.heapGet(pre, h)
 		nh := vc.freshName(h)
 		vc.declare(nh, fmt.Sprintf("(Array Loc %s)", vc.enc.heaps[h]))
@@ -86,7 +87,8 @@ func (vc *VC) execAppend(x *ssa.Call, pc string, st *State) {
 			srcAt(sx("-", sx("l_idx", "l!a"), sx("s_len", s))))
 		fr := fmt.Sprintf("(forall ((l!a Loc)) (! (= (select %s l!a) (ite %s %s (select %s l!a))) :pattern ((select %s l!a))))",
 			nh, isNew("l!a"), newVal, old, nh)
-		vc.assume(pc, ite(inPlace, ip, fr))
+		vc.assume(and(pc, inPlace), ip)
+		vc.assume(and(pc, not(inPlace)), fr)
 	}
 }
 
@@ -102,8 +104,8 @@ func (vc *VC) execCopy(x *ssa.Call, pc string, st *State) {
 	}
 	n := vc.setVal(x, ite(sx("<=", sx("s_len", d), sx("s_len", s)), sx("s_len", d), sx("s_len", s)))
 	pre := st.clone()
-	for _, lf := range leavesOf(sl.Elem()) {
-		h := vc.enc.HeapFor(lf.t)
+	for _, lf := range vc.enc.Leaves(sl.Elem()) {
+		h := lf.heap
 		old := vc.heapGet(pre, h)
 		nh := vc.freshName(h)
 		vc.declare(nh, fmt.Sprintf("(Array Loc %s)", vc.enc.heaps[h]))
